@@ -97,3 +97,72 @@ def programs(seed, n, syms=gen.SYMS, tids=None):
             steps.append({"op": "mode_ctx", "in": [], "out": [f"m{j}"], "args": a})
         progs.append({"tid": tids(), "inputs": fam, "steps": steps})
     return progs
+
+
+def derived_programs(seed, n, syms=gen.SYMS, tids=None):
+    """Arrays DERIVED from one another by library operations share index objects (and their memoised hash
+    keys): conj / transpose / sync_charges of an array whose plans are already cached, and two fuse histories
+    that end in equal tables.  Every call made with a warm cache is compared with the same call made with the
+    cache disabled."""
+    tids = tids or gen.Tids()
+    progs = []
+    for i in range(n):
+        rng = gen.rng_for(seed, "derived", i)
+        sym = syms[i % len(syms)]
+        kind = rng.choice(["abelian", "fermionic"])
+        x = gen.rand_array(rng, sym, 3, kind, sparse=0.3, minc=2, maxc=3, maxd=2, phases=0.3 if kind == "fermionic" else 0)
+        g = rng.choice([[0, 1], [1, 2], [0, 2], [1, 0], [2, 1]])
+        size = rng.choice([2, 8192, 8192])
+        steps = []
+        warm, cold = [], []
+
+        def both(op, ins, args, name):
+            """the same call with the warm cache (now) and - at the end - with the cache off"""
+            steps.append({"op": op, "in": ins, "out": [name], "args": dict(args)})
+            cold.append(({"op": op, "in": ins, "out": [name + "_ref"], "args": dict(args)}, name))
+
+        steps.append({"op": "set_cache", "in": [], "out": [], "args": {"size": size, "clear": True}})
+        both("fuse", ["x"], {"groups": [g]}, "f_x")
+        # conjugate / adjoint / permuted copies reuse the index objects of x
+        steps.append({"op": "conj", "in": ["x"], "out": ["xc"], "args": {}})
+        both("fuse", ["xc"], {"groups": [g]}, "f_xc")
+        steps.append({"op": "dagger", "in": ["x"], "out": ["xd"], "args": {}})
+        gd = [2 - a for a in g]
+        both("fuse", ["xd"], {"groups": [gd]}, "f_xd")
+        both("fuse", ["xd"], {"groups": [g]}, "f_xd2")
+        # the conjugate first, then the original with other groups (the mirror case)
+        g2 = rng.choice([q for q in ([0, 1], [1, 2], [0, 2], [2, 0]) if q != g])
+        both("fuse", ["xc"], {"groups": [g2]}, "f_xc2")
+        both("fuse", ["x"], {"groups": [g2]}, "f_x2")
+        # charges that no stored sector uses: sync_charges drops them from the tables
+        both("fuse", ["xs0"], {"groups": [g]}, "f_xs0")            # memoises the hash keys of xs0's indices
+        steps.append({"op": "sync_charges", "in": ["xs0"], "out": ["xs"], "args": {}})
+        both("fuse", ["xs"], {"groups": [g]}, "f_xs")
+        steps.append({"op": "conj", "in": ["xs"], "out": ["xsc"], "args": {}})
+        both("tensordot", ["xs", "xsc"], {"axes": [[0, 1], [0, 1]], "mode": "fused", "preserve_array": True}, "t_xs")
+        both("tensordot", ["xs0", "xsc"], {"axes": [[0, 1], [0, 1]], "mode": "fused", "preserve_array": True}, "t_xs0")
+        # two fuse histories with equal tables, then a second-level fuse of the fused axis
+        both("fuse", ["x"], {"groups": [[0, 1]]}, "h1")
+        both("fuse", ["x"], {"groups": [[1, 0]]}, "h2")
+        both("fuse", ["h1"], {"groups": [[0, 1]]}, "hh1")
+        both("fuse", ["h2"], {"groups": [[0, 1]]}, "hh2")
+        for h, perm in (("1", [0, 1, 2]), ("2", [1, 0, 2])):
+            steps.append({"op": "unfuse", "in": [f"hh{h}"], "out": [f"u{h}a"], "args": {"axis": 0}})
+            steps.append({"op": "unfuse", "in": [f"u{h}a"], "out": [f"u{h}b"], "args": {"axis": 0}})
+            inv = [perm.index(k) for k in range(3)]
+            steps.append({"op": "transpose", "in": [f"u{h}b"], "out": [f"back{h}"], "args": {"axes": inv}})
+            steps.append(rel("blocks" if kind == "abelian" else "same", "C05.roundtrip.nested", "x", f"back{h}"))
+            steps.append({"op": "unfuse_all", "in": [f"hh{h}"], "out": [f"ua{h}"], "args": {}})
+        # now everything again with the cache disabled, and compare
+        steps.append({"op": "set_cache", "in": [], "out": [], "args": {"size": 0, "clear": True}})
+        for st, name in cold:
+            steps.append(st)
+            steps.append(rel("obs", "C15.history_independent.derived", name, name + "_ref"))
+        # xs0: x with every sector that uses one particular charge removed
+        xs0 = copy.deepcopy(x)
+        k = rng.randrange(3)
+        c = xs0["ix"][k]["cm"][rng.randrange(len(xs0["ix"][k]["cm"]))]["c"]
+        secs = gen.D.valid_sectors(sym, xs0["ix"], tuple(xs0["charge"]))
+        xs0["drop"] = sorted(set(xs0["drop"]) | {j for j, s in enumerate(secs) if list(s[k]) == list(c)})
+        progs.append({"tid": tids(), "inputs": {"x": x, "xs0": xs0}, "steps": steps})
+    return progs
